@@ -65,6 +65,14 @@ func TestC10_P2PSender(t *testing.T) {
 			if len(m.ExtraData) > 512 {
 				m.ExtraData = m.ExtraData[:512]
 			}
+			// gossipsub limits a message to 1 MiB: keep the several-MiB cases out of this unit
+			kept := m.Addrs[:0]
+			for _, a := range m.Addrs {
+				if len(a.Bytes) <= 1024 {
+					kept = append(kept, a)
+				}
+			}
+			m.Addrs = kept
 			c.Msgs = append(c.Msgs, m)
 		}
 		if rapid.IntRange(0, 3).Draw(t, "xd") == 0 {
